@@ -24,3 +24,19 @@ def build(reg):
                  "krylov_exp and the operator action H*x / L@x are uninterpreted here (C07, C06)",
                  "the step loop and the per-step dt are C14's obligations"],
     )
+
+
+# negative controls (thorough tier): (name, file, old text, new text)
+CONTROLS = [('wrong sign of the generator',
+  'emu_sv/time_evolution.py',
+  '            return -1j * dt * (ham * x)\n\n        res = krylov_exp(',
+  '            return 1j * dt * (ham * x)\n\n        res = krylov_exp('),
+ ('matrix queried at the end of the step',
+  'emu_sv/sv_backend_impl.py',
+  'self.interaction_matrix(self.target_times[step_idx]),',
+  'self.interaction_matrix(self.target_times[step_idx + 1]),'),
+ ('time unit factor dropped', 'emu_sv/sv_backend_impl.py', 'dt * _TIME_CONVERSION_COEFF,', 'dt,'),
+ ('drives of the previous step',
+  'emu_sv/sv_backend_impl.py',
+  '            self.omega[step_idx],',
+  '            self.omega[max(step_idx - 1, 0)],')]
